@@ -62,6 +62,25 @@ def instances(tier, seed):
                         h = H[2]
                     add(spec=fam.with_horizon(s, h), cfg=Cfg(method, N=N, M=M, intg=intg or 'rk', grid=grids[n % 4], degree=degree, scheme=scheme), when=when)
                     n += 1
+    # seeded random problems (model, constraints, objective, guesses): the relational comparison needs no reference semantics
+    from .. import randspec
+    rr = random.Random(seed * 7919 + 1818)
+    for ri in range(4 if tier == 'quick' else 60):
+        method, intg = rr.choice([('MS', 'rk'), ('SS', 'rk'), ('DC', None), ('MS', 'expl_euler'), ('DC', None)])
+        s = fam.random_dae(rr) if (method == 'DC' and rr.random() < 0.4) else (fam.random_diffeq(rr) if (method != 'DC' and rr.random() < 0.2) else fam.random_ode(rr))
+        N = rr.choice([1, 2, 3])
+        M = rr.choice([1, 2]) if method != 'SS' else 1
+        h = rr.choice(H[1:])
+        s = fam.with_horizon(s, h)
+        s.cons = randspec.random_constraints(rr, s, method, M)
+        s.objective = randspec.random_objective(rr, s, method)
+        s.initial = [(X(0), rr.choice([Fr(3, 2), t * 2 + 1])), (X(s.nx - 1), Fr(-1, 4))] + ([(U(0), 3 - t)] if s.nu else [])
+        s.note = 'random problem'
+        degree, scheme = rr.choice([(2, 'radau'), (1, 'legendre'), (3, 'radau')])
+        if method == 'DC' and not fam.rational_tables(degree, scheme) and not fam.horizon_symbolic(h):
+            degree, scheme = 2, 'radau'
+        add(spec=s, cfg=Cfg(method, N=N, M=M, intg='rk' if s.nxt is not None else (intg or 'rk'), grid=rr.choice(grids), degree=degree, scheme=scheme),
+            when=rr.choice(['before', 'after', 'edited', 'load-edit']), soft=True, family='random', twin=False)
     return items
 
 
@@ -102,7 +121,14 @@ def run(item):
     if when == 'edited':
         # transcribe, then edit the specification, then save: the stale transcription must not get in the way
         with quiet():
-            b.ocp._transcribed
+            try:
+                b.ocp._transcribed
+            except Exception as e:
+                from ..runner import DEGENERATE_REJECTIONS
+                from ..sx2smt import Unsupported
+                if item.get('family') == 'random' and any(m_ in str(e) for m_ in DEGENERATE_REJECTIONS):
+                    raise Unsupported('random specification has a decision-free constraint instance, rejected by rockit')
+                raise
             extra = Con('<=', X(0), 11)
             b.ocp.subject_to(b.mx(extra.lhs) <= b.mx(extra.rhs))
         spec = copy.deepcopy(spec)
